@@ -368,6 +368,8 @@ pub fn text(c: &Case) -> String {
     match c.ctx.as_str() {
         "assign" => body += &format!("A ::= {}", base(&all)),
         "component" => body += &format!("S ::= SEQUENCE {{ f {} }}", base(&all)),
+        // the expression constrains a component whose type is a reference to the unconstrained type
+        "reference-component" => body += &format!("P ::= {}\nS ::= SEQUENCE {{ f P {} }}", base(""), all),
         // the expression constrains a type P, which is then used as a contained subtype
         "contained" => body += &format!("P ::= {}\nA ::= {}", base(&all), base("(P)")),
         "contained-includes" => body += &format!("P ::= {}\nA ::= {}", base(&all), base("(INCLUDES P)")),
@@ -489,7 +491,7 @@ impl Prop for C04 {
         "C04"
     }
     fn rule(&self) -> String {
-        "subtype expressions of 1..3 operands (single value or range with endpoints from {MIN,-3,0,2,5,9,MAX}; 32 operands) joined by | ^ EXCEPT without parentheses, ALL EXCEPT x, optional extension marker, 1..2 serial constraints, on INTEGER / BIT STRING / OCTET STRING / IA5String / SEQUENCE OF / SET OF (SIZE wrapping, non-negative operands), as type assignment, component, through a constrained parent reference, as a contained subtype `(P)` / `(INCLUDES P)` of a type carrying the expression (INTEGER and SIZE-constrained OCTET STRING), with value references and with named numbers as endpoints, both operator spellings. Oracle: exact set semantics on a 19-point universe (bit sets) for soundness, interval fold (hull/∩/EXCEPT ignored) under X.680 precedence for equality, marker⇔extensible. A case is non-trivial when it compiled cleanly and a bound (or its absence) was read from the item and compared.".into()
+        "subtype expressions of 1..3 operands (single value or range with endpoints from {MIN,-3,0,2,5,9,MAX}; 32 operands) joined by | ^ EXCEPT without parentheses, ALL EXCEPT x, optional extension marker, 1..2 serial constraints, on INTEGER / BIT STRING / OCTET STRING / IA5String / SEQUENCE OF / SET OF (SIZE wrapping, non-negative operands), as type assignment, component, through a constrained parent reference, as the constraint of a component whose type is a reference to the unconstrained type (INTEGER, OCTET STRING, SEQUENCE OF), as a contained subtype `(P)` / `(INCLUDES P)` of a type carrying the expression (INTEGER and SIZE-constrained OCTET STRING), with value references and with named numbers as endpoints, both operator spellings. Oracle: exact set semantics on a 19-point universe (bit sets) for soundness, interval fold (hull/∩/EXCEPT ignored) under X.680 precedence for equality, marker⇔extensible. A case is non-trivial when it compiled cleanly and a bound (or its absence) was read from the item and compared.".into()
     }
     fn selftest(&self) -> Result<u64, String> {
         // interval algebra vs brute force over the universe
@@ -606,6 +608,12 @@ impl Prop for C04 {
                 }
             }
         }
+        // components whose type is a reference: INTEGER and a sized type
+        for x in [false, true] {
+            for e in e1.iter().chain(e2.iter()) {
+                out.push(mk(vec![with_ext(e, x)], "INTEGER", "reference-component", false, false));
+            }
+        }
         // contained subtypes: the expression sits on a referenced type (non-extensible expressions)
         for e in e1.iter().chain(e2.iter()) {
             for ctx in ["contained", "contained-includes", "contained-component"] {
@@ -642,6 +650,10 @@ impl Prop for C04 {
                     out.push(mk(vec![with_ext(e, true)], ty, ctx, false, false));
                 }
             }
+        }
+        for e in z1.iter().chain(z2.iter()) {
+            out.push(mk(vec![e.clone()], "OCTETSTRING", "reference-component", false, false));
+            out.push(mk(vec![e.clone()], "SEQOF", "reference-component", false, false));
         }
         for e in z1.iter().chain(z2.iter()) {
             for ctx in ["contained", "contained-component"] {
@@ -767,7 +779,7 @@ impl Prop for C04 {
         };
         let mut got: Result<Option<Bound>, String>;
         match c.ctx.as_str() {
-            "component" | "contained-component" => match m.find("S") {
+            "component" | "contained-component" | "reference-component" => match m.find("S") {
                 Some(Item::Struct { fields, .. }) if fields.len() == 1 => {
                     got = read_attr(&fields[0].attrs.rasn);
                     // SEQUENCE OF / SET OF components are hoisted into a delegate newtype that carries the bound
